@@ -461,6 +461,7 @@ class Interp:
             # shared by every call that omits the argument.  It is evaluated on first use and kept with the function object.
             cache = fv.attrs.setdefault("__defaults__", {})
             if pname in cache:
+                self.default_objects[id(cache[pname])] = (fv.qualname, pname, cache[pname])
                 return cache[pname]
             v = self.ev(dnode, denv)
             if isinstance(v, (np.ndarray, list, dict, set, Record)):
